@@ -31,7 +31,9 @@ Values ==
     [t |-> "map", ps |-> <<<<GoInt("int64", 1), GoInt("int64", 2)>>>>], [t |-> "bool", v |-> TRUE], [t |-> "nil"],
     [t |-> "csig", x |-> CsObj], [t |-> "csigs", xs |-> <<CsObj, CsObj2>>], [t |-> "csigs", xs |-> <<CsObj2, CsObj, CsObj2>>], [t |-> "csigs", xs |-> <<>>],
     [t |-> "nilcsig"], [t |-> "csigval", x |-> CsObj], [t |-> "struct"], [t |-> "float"], [t |-> "simple", v |-> 16],
-    [t |-> "uint64", neg |-> FALSE, a |-> <<128, 0, 0, 0, 0, 0, 0, 0>>] }
+    [t |-> "uint64", neg |-> FALSE, a |-> <<128, 0, 0, 0, 0, 0, 0, 0>>],
+    \* values of a byte-slice type with its own encoding (cbor.RawMessage): the bytes are a uint / a bstr / null / a tstr
+    [t |-> "rawitem", b |-> <<1>>], [t |-> "rawitem", b |-> <<65, 49>>], [t |-> "rawitem", b |-> <<246>>], [t |-> "rawitem", b |-> <<97, 120>>] }
 
 Sp(t, n) == [t |-> t, neg |-> FALSE, a |-> NatToArg(n)]
 B1 == GoBytes(<<1>>)
